@@ -753,17 +753,23 @@ func (n *Node) unRefInternal(updateStat bool) {
 func (n *Node) unRefExternal() {
 	if atomic.AddInt32(&n.ref, -1) == 0 {
 		n.r.mu.RLock()
-		if n.r.closed {
-			// A Get that ran before Close may have revived the node since
-			// the counter dropped to zero; whoever drops it last finalizes.
-			if atomic.LoadInt32(&n.ref) == 0 {
-				n.callFinalizer()
-			}
-		} else {
-			n.r.delete(n)
-			atomic.AddInt64(&n.r.statDel, 1)
-		}
+		n.unRefZero()
 		n.r.mu.RUnlock()
+	}
+}
+
+// unRefZero handles a reference counter that dropped to zero. The caller
+// holds r.mu, or runs inside Close after the map was closed.
+func (n *Node) unRefZero() {
+	if n.r.closed {
+		// A Get that ran before Close may have revived the node since
+		// the counter dropped to zero; whoever drops it last finalizes.
+		if atomic.LoadInt32(&n.ref) == 0 {
+			n.callFinalizer()
+		}
+	} else {
+		n.r.delete(n)
+		atomic.AddInt64(&n.r.statDel, 1)
 	}
 }
 
@@ -788,6 +794,21 @@ func (h *Handle) Release() {
 	if nPtr != nil && atomic.CompareAndSwapPointer(&h.n, nPtr, nil) {
 		n := (*Node)(nPtr)
 		n.unRefExternal()
+	}
+}
+
+// releaseLocked releases a handle owned by the cacher from inside a Cache
+// operation. Promote, Ban and Evict are called with r.mu held for reading (or
+// by Close, once the map is closed), and a read lock must not be taken again
+// by the same goroutine: with Close waiting for the lock in between, both
+// would wait forever.
+func (h *Handle) releaseLocked() {
+	nPtr := atomic.LoadPointer(&h.n)
+	if nPtr != nil && atomic.CompareAndSwapPointer(&h.n, nPtr, nil) {
+		n := (*Node)(nPtr)
+		if atomic.AddInt32(&n.ref, -1) == 0 {
+			n.unRefZero()
+		}
 	}
 }
 
